@@ -538,6 +538,40 @@ def _disjuncts(c):
     return [c]
 
 
+def unreachable_dispatch_rule(ctx, key):
+    """parse_at_rule: the `_ => unreachable!()` dispatch on the import condition name is guarded by a test of the same names"""
+    ob = ctx.ob
+    obs = []
+    pa = [g for g in ctx.sc.fns if g.name == "parse_at_rule" and g.body]
+    if pa:
+        g = pa[0]
+        found = False
+        for m in sir.walk(g.body):
+            if m.get("k") != "match" or not any(a["pat"].get("k") == "p_wild" and any(sir.is_panic_node(x) for x in sir.walk(a["body"])) for a in m["arms"]):
+                continue
+            lits = sorted(a["pat"]["e"]["v"] for a in m["arms"] if a["pat"].get("k") == "p_lit")
+            if not lits:
+                continue
+            found = True
+            scr = sir.expr_str(m["e"])
+            guard_ok = False
+            for x in sir.walk(g.body):
+                if x.get("k") == "if" and x["cond"].get("k") == "unary" and x["cond"].get("op") == "!":
+                    c = x["cond"]["e"]
+                    glits = None
+                    if c.get("k") == "mac" and c.get("name") == "matches" and c.get("e") is not None and sir.expr_str(c["e"]) == scr and c.get("pat") is not None:
+                        glits = sorted(t["e"]["v"] for t in sir.walk(c["pat"]) if t.get("k") == "p_lit")
+                    elif c.get("k") == "match" and sir.expr_str(c["e"]) == scr:
+                        glits = sorted(t["e"]["v"] for a in c["arms"] for t in sir.walk(a["pat"]) if t.get("k") == "p_lit")
+                    if glits == lits and any(y.get("k") in ("break", "return", "continue") for y in sir.walk(x["then"], into_closures=False)):
+                        guard_ok = True
+            obs.append(ob(key + "/" + "+".join(lits), guard_ok, ctx.where(g), "the dispatch on `%s` over %s ends in unreachable!(); it is preceded by a diverging test of exactly those spellings: %s" % (scr, lits, guard_ok),
+                          witness=None if guard_ok else "`@import './a' LAYER(base);` passes a relaxed guard and reaches unreachable!()"))
+        if not found:
+            obs.append(ob(key, True, ctx.where(g), "parse_at_rule has no dispatch that ends in unreachable!(): nothing to guard"))
+    return obs
+
+
 def child_once_rule(ctx, key):
     """a function that walks the expression tree through the generic child iterator visits every child once: a second recursive
     call on a child next to that loop doubles the work per level (2^depth on a member chain)"""
@@ -731,34 +765,7 @@ def side_conditions_rule(ctx):
                         probs.append("the scanner continues on `%s`%s, which is not a set of ASCII characters" % (sir.pat_str(pt_), " if <guard>" if a.get("guard") is not None else ""))
         obs.append(ob("C01.panic/side/entity-ascii", n_arms >= 1 and not probs, ctx.where(g), "; ".join(sorted(set(probs))) if probs else "%d continue-arms of the entity scanner accept ASCII letters/digits only" % n_arms,
                       witness=None if not probs else "`&a\u00e9;` reaches a byte slice inside a character in entities::decode"))
-    # parse_at_rule: the `_ => unreachable!()` dispatch on the import condition name is guarded by a test of the same names
-    pa = [g for g in ctx.sc.fns if g.name == "parse_at_rule" and g.body]
-    if pa:
-        g = pa[0]
-        found = False
-        for m in sir.walk(g.body):
-            if m.get("k") != "match" or not any(a["pat"].get("k") == "p_wild" and any(sir.is_panic_node(x) for x in sir.walk(a["body"])) for a in m["arms"]):
-                continue
-            lits = sorted(a["pat"]["e"]["v"] for a in m["arms"] if a["pat"].get("k") == "p_lit")
-            if not lits:
-                continue
-            found = True
-            scr = sir.expr_str(m["e"])
-            guard_ok = False
-            for x in sir.walk(g.body):
-                if x.get("k") == "if" and x["cond"].get("k") == "unary" and x["cond"].get("op") == "!":
-                    c = x["cond"]["e"]
-                    glits = None
-                    if c.get("k") == "mac" and c.get("name") == "matches" and c.get("e") is not None and sir.expr_str(c["e"]) == scr and c.get("pat") is not None:
-                        glits = sorted(t["e"]["v"] for t in sir.walk(c["pat"]) if t.get("k") == "p_lit")
-                    elif c.get("k") == "match" and sir.expr_str(c["e"]) == scr:
-                        glits = sorted(t["e"]["v"] for a in c["arms"] for t in sir.walk(a["pat"]) if t.get("k") == "p_lit")
-                    if glits == lits and any(y.get("k") in ("break", "return", "continue") for y in sir.walk(x["then"], into_closures=False)):
-                        guard_ok = True
-            obs.append(ob("C01.panic/side/unreachable-dispatch/%s" % "+".join(lits), guard_ok, ctx.where(g), "the dispatch on `%s` over %s ends in unreachable!(); it is preceded by a diverging test of exactly those spellings: %s" % (scr, lits, guard_ok),
-                          witness=None if guard_ok else "`@import './a' LAYER(base);` passes a relaxed guard and reaches unreachable!()"))
-        if not found:
-            obs.append(ob("C01.panic/side/unreachable-dispatch", True, ctx.where(g), "parse_at_rule has no dispatch that ends in unreachable!(): nothing to guard"))
+    obs += unreachable_dispatch_rule(ctx, "C01.panic/side/unreachable-dispatch")
     # get_var_name: every table is indexed modulo its own length
     gv = [g for g in ctx.tc.fns if g.name == "get_var_name" and g.body]
     if gv:
